@@ -612,9 +612,12 @@ def gen_history(rng):
     shared_binds = {}
     # small per-run pools so that collisions are frequent
     epool = [gen.gen_expr(rng, ids, rng.choice([1, 2, 3])) for _ in range(6)]
-    bpool = [rng.choice(gen.BYTES_POOL) for _ in range(6)] + [gen.gen_random_bytes(rng) for _ in range(2)]
+    bpool = [rng.choice(gen.BYTES_POOL) for _ in range(4)] + [gen.gen_random_bytes(rng) for _ in range(2)] + gen.gen_family_pool(rng, 4)
+    att_share = rng.choice([0.1, 0.5, 0.9])
     mtx = rng.sample(gen.ASM_MEMTXT, 3)
     lpool = [gen.gen_asm_line(rng, mtx) for _ in range(8)]
+    atx = rng.sample(gen.ATT_OPTXT, 3)
+    apool = [gen.gen_att_line(rng, atx) for _ in range(8)] + ['ret', 'nop', 'scasb', 'cmpxchgl %ecx, (%edx)']
     def pick_expr():
         if expr_results and rng.random() < ref_p:
             return {'ref': rng.choice(expr_results)}
@@ -645,10 +648,13 @@ def gen_history(rng):
         if scenario == 'asm':
             pm = 0.0
             if rng.random() < 0.75:
+                if rng.random() < att_share:
+                    ops.append({'op': 'asm_att', 'line': rng.choice(apool) if rng.random() < 0.9 else rng.choice(gen.ATT_BAD), 'c': c})
+                    continue
                 if rng.random() < 0.8:
                     ops.append({'op': 'asm', 'line': rng.choice(lpool) if rng.random() < 0.85 else rng.choice(gen.INTEL_BAD), 'c': c})
                 else:
-                    ops.append({'op': 'asm_att', 'line': rng.choice(gen.ATT_LINES) if rng.random() < 0.85 else rng.choice(gen.ATT_BAD), 'c': c})
+                    ops.append({'op': 'asm_att', 'line': rng.choice(apool) if rng.random() < 0.85 else rng.choice(gen.ATT_BAD), 'c': c})
                 continue
         if scenario == 'stateless':
             pm = 0.1
@@ -714,7 +720,12 @@ def gen_history(rng):
                     line = rng.choice(gen.INTEL_LINES)
                 ops.append({'op': 'asm', 'line': line, 'c': c})
             elif y < 0.54:
-                line = rng.choice(gen.ATT_BAD) if rng.random() < bad_p else rng.choice(gen.ATT_LINES)
+                if rng.random() < bad_p:
+                    line = rng.choice(gen.ATT_BAD)
+                elif rng.random() < 0.4:
+                    line = rng.choice(apool)
+                else:
+                    line = rng.choice(gen.ATT_LINES)
                 ops.append({'op': 'asm_att', 'line': line, 'c': c})
             elif y < 0.72:
                 hx = rng.choice(bpool)
